@@ -238,6 +238,15 @@ type SketchModel struct {
 	Items []Item
 	// statistics of the exact model
 	Lossy int // events after which the exact sum is only known up to rounding
+	// BinsUnknown is set after a mapping change, whose split of weights over bins the model does not prescribe.
+	BinsUnknown bool
+	// everFolded is sticky: some weight held by this sketch went through a bounded store's fold since the last Clear.
+	everFolded bool
+}
+
+// EverFolded tells whether any weight held was moved by a collapsing store since the last Clear.
+func (m *SketchModel) EverFolded() bool {
+	return m.everFolded || m.Pos.Folded || m.Neg.Folded
 }
 
 func NewSketchModel(m *gen.Map, sp gen.StoreSpec) *SketchModel {
@@ -252,7 +261,7 @@ func NewSketchModel(m *gen.Map, sp gen.StoreSpec) *SketchModel {
 }
 
 func (m *SketchModel) Clone() *SketchModel {
-	c := &SketchModel{Map: m.Map, Pos: m.Pos.Clone(), Neg: m.Neg.Clone(), Zero: m.Zero, Lossy: m.Lossy}
+	c := &SketchModel{Map: m.Map, Pos: m.Pos.Clone(), Neg: m.Neg.Clone(), Zero: m.Zero, Lossy: m.Lossy, BinsUnknown: m.BinsUnknown, everFolded: m.everFolded}
 	c.Items = append([]Item{}, m.Items...)
 	return c
 }
@@ -280,6 +289,8 @@ func (m *SketchModel) Merge(o *SketchModel) {
 	m.Zero += o.Zero
 	m.Items = append(m.Items, o.Items...)
 	m.Lossy += o.Lossy
+	m.BinsUnknown = m.BinsUnknown || o.BinsUnknown
+	m.everFolded = m.everFolded || o.EverFolded()
 }
 
 func (m *SketchModel) Scale(f float64) {
@@ -297,6 +308,8 @@ func (m *SketchModel) Clear() {
 	m.Zero = 0
 	m.Items = nil
 	m.Lossy = 0
+	m.BinsUnknown = false
+	m.everFolded = false
 }
 
 func (m *SketchModel) Total() float64 { return m.Zero + m.Pos.Total() + m.Neg.Total() }
